@@ -1,7 +1,7 @@
 \* behaviour generation (shape coverage, quick): each scripted prefix of ShapePrefixes builds buffer / slice /
 \* slice-of-slice / cast / clone / wrapped views (PrefixShapes, 8-byte int16 buffer) or views whose byte size
 \* is not a multiple of their dtype size (PrefixOdd, 7-byte buffer); then EVERY single call with every argument
-\* tuple of the full domain from that state (offsets {0,1} for device-to-device copies)
+\* tuple of the full domain from that state (offsets {-1,0,1} for device-to-device copies)
 SPECIFICATION Spec
 CONSTANTS
   NViews = 7
